@@ -42,6 +42,20 @@ def step (st : St) : List String → St × String
       | some h => (st, "ok hash=" ++ Tok.hex h)
       | none => (st, "err decode")
     | none => (st, "bad-op")
+  | ["datum", hx] =>
+    match Tok.unhex hx with
+    | some bs =>
+      match firstSpan bs with
+      | some sp => (st, "ok hash=" ++ Tok.hex (datumHash sp))
+      | none => (st, "err decode")
+    | none => (st, "bad-op")
+  | ["script", hx] =>
+    match Tok.unhex hx with
+    | some bs =>
+      match firstSpan bs with
+      | some sp => (st, "ok hash=" ++ Tok.hex (nativeScriptHash sp))
+      | none => (st, "err decode")
+    | none => (st, "bad-op")
   | ["header", tag, hx] =>
     match Tok.nat? tag, Tok.unhex hx with
     | some t, some bs =>
